@@ -299,7 +299,13 @@ func genVector(r *hx.Rng, names []string) vector {
 	if len(tpls) == 0 {
 		tpls = genericTemplates(name)
 	}
-	v := clone(bb(tpls[r.Pick(len(tpls))]))
+	tp := tpls[r.Pick(len(tpls))]
+	v := clone(bb(tp))
+	if r.Pick(3) == 0 {
+		// state dimension: a few shared keys are addressed by commands of every family (prior content of
+		// another type, boundary sizes, expiry set by earlier vectors)
+		v = retarget(tp, fmt.Sprintf("vns:t:q%d", r.Pick(6)))
+	}
 	k := 1
 	switch x := r.Pick(10); {
 	case x == 0:
@@ -462,6 +468,210 @@ func sweepVectors(names []string, isWrite func(string) bool, maxSize int64, part
 				}
 			}
 		}
+	}
+	return out
+}
+
+// ---------- the state dimension: short sequences on one key ----------
+
+// retarget points a template at another key: the first key argument (behind the namespace) is replaced.
+func retarget(t []string, key string) [][]byte {
+	v := clone(bb(t))
+	if len(v) > 1 && strings.HasPrefix(t[1], "vns:t:") {
+		v[1] = []byte(key)
+	}
+	return v
+}
+
+// bit offsets around byte, doubling and segment (1 KiB = 8192 bits) boundaries
+var bitOffsets = []string{"0", "1", "7", "8", "4095", "4096", "6000", "8183", "8184", "8191", "8192", "8193", "12287", "16383", "16384", "16391", "65535", "65536"}
+
+// prior content writers: one valid command per data type (KV string, HLL, bitmap, hash, list, set, zset, json, geo)
+var priorWriters = [][]string{
+	{"set", "K", "v1"}, {"pfadd", "K", "a", "b"}, {"setbitv2", "K", "9", "1"}, {"json.set", "K", ".", `{"a":[1,2]}`},
+	{"hset", "K", "f1", "v1"}, {"rpush", "K", "a", "b", "c"}, {"sadd", "K", "m1", "m2"}, {"zadd", "K", "1", "m1", "2", "m2"},
+	{"geoadd", "K", "13.361389", "38.115556", "Palermo"},
+}
+
+// commands that read or rewrite the bytes stored under a KV-type key (string, HyperLogLog, old format bitmap)
+var kvFamily = [][]string{
+	{"pfadd", "K", "x"}, {"pfcount", "K"}, {"setbit", "K", "9", "1"}, {"setbitv2", "K", "9", "1"}, {"getbit", "K", "9"}, {"bitcount", "K"},
+	{"bitclear", "K"}, {"incr", "K"}, {"incrby", "K", "5"}, {"append", "K", "xy"}, {"getrange", "K", "0", "-1"}, {"setrange", "K", "1", "zz"},
+	{"strlen", "K"}, {"getset", "K", "v"}, {"get", "K"}, {"setnx", "K", "v"}, {"expire", "K", "100000"}, {"ttl", "K"}, {"stale.getversion", "K"},
+	{"setifeq", "K", "v1", "v2"}, {"delifeq", "K", "v1"}, {"del", "K"},
+}
+
+func withKey(t []string, key string) [][]byte {
+	v := clone(bb(t))
+	for i := range v {
+		if string(v[i]) == "K" {
+			v[i] = []byte(key)
+		}
+	}
+	return v
+}
+
+// clearCmd: the command that removes what a command of this name may have stored under its key
+func clearCmd(name string) string {
+	switch {
+	case strings.HasPrefix(name, "json."):
+		return "json.del"
+	case name == "setbit" || name == "setbitv2" || name == "bitclear" || name == "bexpire" || name == "bpersist" || name == "getbit" || name == "bitcount":
+		return "bitclear"
+	case name == "set" || name == "setex" || name == "setnx" || name == "setrange" || name == "setifeq" || strings.HasPrefix(name, "stale.get"):
+		return "del"
+	case strings.HasPrefix(name, "geo") || strings.HasPrefix(name, "z"):
+		return "zclear"
+	case strings.HasPrefix(name, "h") || strings.HasPrefix(name, "stale.h"):
+		return "hclear"
+	case strings.HasPrefix(name, "l") || name == "rpush" || name == "rpop":
+		return "lclear"
+	case strings.HasPrefix(name, "s"):
+		return "sclear"
+	}
+	return "del"
+}
+
+// stateSweep: deterministic sequences of 2..3 commands on a fresh key each:
+//  1. type confusion inside the KV type: SET K <value of 0..20, 24, 32 bytes with first byte 0,1,2,3,0xff>, then every
+//     command of the KV family (decoders of strings, HyperLogLog values, old format bitmaps) on K;
+//  2. bitmaps: two SETBITs on the same key for every pair of boundary offsets, and the conversion of an old format
+//     string value of several lengths;
+//  3. every command template on a key that holds a value of another (or the same) data type.
+//
+// part/nparts slice the list; full = all prior writers in (3), else the KV-type ones and JSON.
+func stateSweep(names []string, part, nparts int, full bool) []vector {
+	var seqs [][]vector
+	keyN := 0
+	fresh := func(p string) string { keyN++; return fmt.Sprintf("vns:t:%s%d", p, keyN) }
+	mk := func(args [][]byte, base, mut string) vector { return vector{args: args, base: base, mut: mut} }
+	// 1
+	var lens []int
+	for l := 0; l <= 20; l++ {
+		lens = append(lens, l)
+	}
+	lens = append(lens, 24, 32)
+	for _, l := range lens {
+		for _, fb := range []byte{0, 1, 2, 3, 0xff} {
+			val := make([]byte, l)
+			for i := range val {
+				val[i] = byte('a' + i%26)
+			}
+			if l > 0 {
+				val[0] = fb
+			}
+			for _, c := range kvFamily {
+				k := fresh("cf")
+				sq := []vector{
+					mk([][]byte{[]byte("set"), []byte(k), val}, "set", "state:kv"),
+					mk(withKey(c, k), c[0], "state:kv"),
+					mk(bb([]string{"del", k}), "del", "state:clean"),
+				}
+				if clearCmd(c[0]) == "bitclear" {
+					sq = append(sq, mk(bb([]string{"bitclear", k}), "bitclear", "state:clean"))
+				}
+				seqs = append(seqs, sq)
+			}
+			if l == 0 {
+				break // the first byte does not exist
+			}
+		}
+	}
+	// 2
+	for _, cmd := range []string{"setbitv2", "setbit"} {
+		for _, o1 := range bitOffsets {
+			for _, o2 := range bitOffsets {
+				k := fresh("bm")
+				seqs = append(seqs, []vector{
+					mk(bb([]string{cmd, k, o1, "1"}), cmd, "state:bits"),
+					mk(bb([]string{cmd, k, o2, "1"}), cmd, "state:bits"),
+					mk(bb([]string{"bitcount", k}), "bitcount", "state:bits"),
+					mk(bb([]string{"bitclear", k}), "bitclear", "state:clean"),
+				})
+			}
+		}
+	}
+	for _, l := range []int{1, 8, 751, 1023, 1024, 1025, 2049} {
+		for _, o := range bitOffsets {
+			k := fresh("bo")
+			seqs = append(seqs, []vector{
+				mk([][]byte{[]byte("set"), []byte(k), bytes.Repeat([]byte{0xff}, l)}, "set", "state:oldbits"),
+				mk(bb([]string{"setbitv2", k, o, "0"}), "setbitv2", "state:oldbits"),
+				mk(bb([]string{"getbit", k, o}), "getbit", "state:oldbits"),
+				mk(bb([]string{"bitclear", k}), "bitclear", "state:clean"),
+				mk(bb([]string{"del", k}), "del", "state:clean"),
+			})
+		}
+	}
+	// 3
+	writers := priorWriters
+	if !full {
+		writers = priorWriters[:4]
+	}
+	for _, w := range writers {
+		for _, n := range names {
+			for _, t := range templates[n] {
+				if len(t) < 2 || !strings.HasPrefix(t[1], "vns:t:") {
+					continue
+				}
+				k := fresh("ty")
+				sq := []vector{
+					mk(withKey(w, k), w[0], "state:type"),
+					mk(retarget(t, k), n, "state:type"),
+					mk(bb([]string{clearCmd(w[0]), k}), clearCmd(w[0]), "state:clean"),
+				}
+				if clearCmd(n) != clearCmd(w[0]) {
+					sq = append(sq, mk(bb([]string{clearCmd(n), k}), clearCmd(n), "state:clean"))
+				}
+				seqs = append(seqs, sq)
+			}
+		}
+	}
+	var out []vector
+	for i, sq := range seqs {
+		if nparts > 1 && i%nparts != part {
+			continue
+		}
+		out = append(out, sq...)
+	}
+	return out
+}
+
+// liveCollectionBig: commands with MAX_BATCH_NUM+1 arguments on collections that really hold that many elements
+// (the refusal must come before any write: it is the one error that does not abort the shared batch)
+func liveCollectionBig() []vector {
+	var out []vector
+	gen := func(head []string, per int, from, cnt int, f func(i, j int) string) vector {
+		v := bb(head)
+		for i := from; i < from+cnt; i++ {
+			for j := 0; j < per; j++ {
+				v = append(v, []byte(f(i, j)))
+			}
+		}
+		return vector{args: v, base: head[0], mut: fmt.Sprintf("livebig%d", cnt)}
+	}
+	fe := func(i, j int) string { return fmt.Sprintf("e%d", i) }
+	fz := func(i, j int) string {
+		if j == 0 {
+			return fmt.Sprint(i)
+		}
+		return fmt.Sprintf("e%d", i)
+	}
+	// fill: 5000 + 1 elements each (two commands: one command may carry at most 5000)
+	out = append(out, gen([]string{"hmset", "vns:t:hlive"}, 2, 0, 5000, fe), gen([]string{"hmset", "vns:t:hlive"}, 2, 5000, 1, fe))
+	out = append(out, gen([]string{"sadd", "vns:t:slive"}, 1, 0, 5000, fe), gen([]string{"sadd", "vns:t:slive"}, 1, 5000, 1, fe))
+	out = append(out, gen([]string{"zadd", "vns:t:zlive"}, 2, 0, 5000, fz), gen([]string{"zadd", "vns:t:zlive"}, 2, 5000, 1, fz))
+	out = append(out, gen([]string{"rpush", "vns:t:llive"}, 1, 0, 5000, fe), gen([]string{"rpush", "vns:t:llive"}, 1, 5000, 1, fe))
+	// the over-long commands on them (distinct, existing elements), each followed by a read of the size
+	out = append(out, gen([]string{"hdel", "vns:t:hlive"}, 1, 0, 5001, fe), vector{args: bb([]string{"hlen", "vns:t:hlive"}), base: "hlen", mut: "livebig"})
+	out = append(out, gen([]string{"srem", "vns:t:slive"}, 1, 0, 5001, fe), vector{args: bb([]string{"scard", "vns:t:slive"}), base: "scard", mut: "livebig"})
+	out = append(out, gen([]string{"zrem", "vns:t:zlive"}, 1, 0, 5001, fe), vector{args: bb([]string{"zcard", "vns:t:zlive"}), base: "zcard", mut: "livebig"})
+	out = append(out, gen([]string{"sadd", "vns:t:slive"}, 1, 6000, 5001, fe), gen([]string{"zadd", "vns:t:zlive"}, 2, 6000, 5001, fz))
+	out = append(out, gen([]string{"hmset", "vns:t:hlive"}, 2, 6000, 5001, fe), gen([]string{"lpush", "vns:t:llive"}, 1, 6000, 5001, fe), gen([]string{"rpush", "vns:t:llive"}, 1, 6000, 5001, fe))
+	out = append(out, gen([]string{"hmget", "vns:t:hlive"}, 1, 0, 5001, fe), gen([]string{"pfadd", "vns:t:plive"}, 1, 0, 5001, fe))
+	// clean up
+	for _, c := range [][]string{{"hclear", "vns:t:hlive"}, {"sclear", "vns:t:slive"}, {"zclear", "vns:t:zlive"}, {"lclear", "vns:t:llive"}, {"del", "vns:t:plive"}} {
+		out = append(out, vector{args: bb(c), base: c[0], mut: "livebig"})
 	}
 	return out
 }
